@@ -34,7 +34,12 @@ BOMS = ["﻿", "￾"]
 
 def gen_cases(tier, seed):
     n = 6000 if tier == "quick" else 150000
-    return [{"seed": env.seed_for(seed, ID, tier, i)} for i in range(n)]
+    out = [{"seed": env.seed_for(seed, ID, tier, i)} for i in range(n)]
+    for i in range(max(10, n // 300)):
+        # stores whose files are siblings in one directory, written at the same time with their file operations interleaved: each must read
+        # back its own value (scenario shared with C08 / C11)
+        out.append({"seed": env.seed_for(seed, ID, tier, "siblings", i), "mode": "siblings", "siblings": True, "mechanism": "roundtrip"})
+    return out
 
 
 def rand_text(r, enc=None):
@@ -196,6 +201,12 @@ def nesting(v, d=0):
 
 
 def run_case(desc):
+    if desc.get("mode") == "siblings":
+        from vmon.checks import c08_file
+
+        res = c08_file.run_siblings(desc)
+        res.setdefault("sets", {})["features"] = ["siblings"]
+        return res
     import uberjob.stores as st
     from uberjob._testing import TestMountedFileStore
     from uberjob.stores import MountedStore
@@ -282,6 +293,13 @@ def run_case(desc):
                 if got_mt is not None:
                     bad = f"get_modified_time() is {got_mt!r} for a path at which nothing is stored ({label})"
                     break
+        if mount == "direct" and desc["seed"] % 5 == 0:
+            # the path already holds something else (written earlier by another kind of store, or by another program): write() replaces it
+            with open(base, "wb") as f:
+                f.write(b"previous content of another kind \x00\xff" * r.randint(1, 3))
+            foreign = True
+        else:
+            foreign = False
         nwrites = r.choice([1, 1, 2, 3])
         prev = None
         for w in range(nwrites):
@@ -437,7 +455,7 @@ def run_case(desc):
         dig = hashlib.sha1(pickle.dumps(value) if kind != "text" else value.encode("utf-8", "surrogatepass")).hexdigest()[:12]
     except Exception:
         dig = str(desc["seed"])
-    res = {"status": "ok", "counters": {"round_trips": 1, "mtime_sequences_across_second_boundary": int(mount == "direct"), "epoch_mtime_checks": int(mount == "direct"), "unreachable_path_checks": int(mount == "direct" and desc["seed"] % 3 == 0),
+    res = {"status": "ok", "counters": {"round_trips": 1, "mtime_sequences_across_second_boundary": int(mount == "direct"), "epoch_mtime_checks": int(mount == "direct"), "writes_over_foreign_content": int(mount == "direct" and desc["seed"] % 5 == 0), "unreachable_path_checks": int(mount == "direct" and desc["seed"] % 3 == 0),
                                         "dst_fallback_mtime_sequences": int(mount == "direct" and desc["seed"] % 4 == 0), "concurrent_mounted_read_groups": int(mount != "direct"), f"kind_{kind}": 1, f"mount_{mount}": 1}, "sets": {"features": feats},
            "nontrivial": nontrivial, "sig": f"{kind}|{mount}|{pathkind}|{enc}|{dig}"}
     if desc["seed"] % 1500 == 0 or bad:
